@@ -997,6 +997,24 @@ func (c *conn) awaitStart(sid uint32) {
 	case <-h.started:
 	case <-time.After(watchdog):
 		if st := c.ref.StateOf(sid); st.Active() {
+			// A verdict only where nothing else can explain it: fewer handlers are running than the advertised limit
+			// (the harness counts them itself), the server still answers a PING, and the handler has not started after
+			// that round trip either. (Before seeded change C13-L's second look this was always INCONCLUSIVE - and swallowed a
+			// handler counter that had wrapped: every later request was queued for ever.)
+			c.mu.Lock()
+			running := c.running
+			c.mu.Unlock()
+			if uint32(running) < c.limit && !c.held {
+				if _, res := c.peer.FenceOrGoAway(c.cursor, watchdog); res == h2peer.FenceAck {
+					select {
+					case <-h.started:
+						return
+					default:
+					}
+					c.violate("handler-never-started", "stream %d was accepted (no error, the server answers PING) and %d of %d handler slots are in use, but no handler has started for it within %v", sid, running, c.limit, watchdog)
+					return
+				}
+			}
 			c.inconclusive("watchdog", "handler for stream %d (accepted, no error) did not start within %v", sid, watchdog)
 		}
 	}
